@@ -893,6 +893,20 @@ def unroll_callee_loops(tree):
     the writes attributed.  Other literal loops stay loops."""
     import copy
     count = 0
+    # module-level tables: a name bound once, at module level, to a literal tuple/list of rows
+    tables = {}
+    stores = {}
+    for n in ast.walk(tree):
+        if isinstance(n, ast.Name) and isinstance(n.ctx, (ast.Store, ast.Del)):
+            stores[n.id] = stores.get(n.id, 0) + 1
+    for st in getattr(tree, 'body', []):
+        tgt = st.targets[0] if isinstance(st, ast.Assign) and len(st.targets) == 1 else (
+            st.target if isinstance(st, ast.AnnAssign) else None)
+        val = getattr(st, 'value', None)
+        if isinstance(tgt, ast.Name) and stores.get(tgt.id) == 1 and isinstance(val, (ast.Tuple, ast.List)) \
+                and val.elts and all(isinstance(e, (ast.Tuple, ast.List)) for e in val.elts) \
+                and not any(isinstance(x, (ast.Call, ast.Lambda, ast.ListComp)) for x in ast.walk(val)):
+            tables[tgt.id] = val
 
     class Sub(ast.NodeTransformer):
         def __init__(self, mapping):
@@ -901,6 +915,24 @@ def unroll_callee_loops(tree):
         def visit_Name(self, node):
             if node.id in self.mapping and isinstance(node.ctx, ast.Load):
                 return copy.deepcopy(self.mapping[node.id])
+            return node
+
+        def visit_Call(self, node):
+            self.generic_visit(node)
+            # getattr(obj, 'name') with a literal name is obj.name; *(a, b) are the arguments a, b
+            if isinstance(node.func, ast.Call) and isinstance(node.func.func, ast.Name) \
+                    and node.func.func.id == 'getattr' and len(node.func.args) == 2 \
+                    and isinstance(node.func.args[1], ast.Constant) and isinstance(node.func.args[1].value, str) \
+                    and node.func.args[1].value.isidentifier():
+                node.func = ast.copy_location(ast.Attribute(value=node.func.args[0], attr=node.func.args[1].value,
+                                                            ctx=ast.Load()), node.func)
+            args = []
+            for a in node.args:
+                if isinstance(a, ast.Starred) and isinstance(a.value, (ast.Tuple, ast.List)):
+                    args.extend(a.value.elts)
+                else:
+                    args.append(a)
+            node.args = args
             return node
     for holder in ast.walk(tree):
         for field in ('body', 'orelse', 'finalbody'):
@@ -945,16 +977,31 @@ def unroll_callee_loops(tree):
                                 new.append(Sub({st.target.id: e}).visit(copy.deepcopy(b)))
                         count += 1
                         continue
+                # a loop over a module-level literal table of rows is a loop over that literal
+                if isinstance(st, ast.For) and isinstance(st.iter, ast.Name) and st.iter.id in tables \
+                        and isinstance(st.target, (ast.Tuple, ast.List)):
+                    st = copy.copy(st)
+                    st.iter = copy.deepcopy(tables[st.iter.id])
+                    big_ok = True
+                else:
+                    big_ok = False
                 ok = isinstance(st, ast.For) and not st.orelse \
                     and isinstance(st.target, (ast.Tuple, ast.List)) \
                     and all(isinstance(t, ast.Name) for t in st.target.elts) \
-                    and isinstance(st.iter, (ast.Tuple, ast.List)) and 1 <= len(st.iter.elts) <= 4 \
+                    and isinstance(st.iter, (ast.Tuple, ast.List)) \
+                    and 1 <= len(st.iter.elts) <= (12 if big_ok else 4) \
                     and all(isinstance(e, (ast.Tuple, ast.List)) and len(e.elts) == len(st.target.elts)
                             for e in st.iter.elts)
                 if ok:
                     names = [t.id for t in st.target.elts]
                     called = any(isinstance(n, ast.Call) and isinstance(n.func, ast.Name) and n.func.id in names
                                  for b in st.body for n in ast.walk(b))
+                    # ... or names the method that is called: getattr(obj, target)(...)
+                    called = called or any(
+                        isinstance(n, ast.Call) and isinstance(n.func, ast.Call) and isinstance(n.func.func, ast.Name)
+                        and n.func.func.id == 'getattr' and len(n.func.args) == 2
+                        and isinstance(n.func.args[1], ast.Name) and n.func.args[1].id in names
+                        for b in st.body for n in ast.walk(b))
                     # ... or is the object that the body changes: `for a, b in ((x, y), (y, x)):
                     # a.items.append(f(b))` says what happens to x and to y
                     def root(e):
